@@ -17,7 +17,7 @@
    cut_value C L E k; (Proofs/ExperimentsP.v) exact_weights C W; (Model/Reconstruct.v) reconstruct_parts,
    reconstruct, E, estimator. *)
 From Coq Require Import QArith Qabs Permutation String.
-From CKT Require Import Common.Base Model.Observables Model.Partition Model.Experiments Model.Roundtrip
+From CKT Require Import Common.Base Common.Circ Model.Observables Model.Partition Model.Decompose Model.Measurement Model.Experiments Model.Roundtrip
   Proofs.ExperimentsP Proofs.PartitionP Proofs.RoundtripP.
 From CKT Require Model.Reconstruct Model.Weights Proofs.WeightsGen.
 Close Scope Q_scope.
@@ -137,6 +137,123 @@ Proof.
   intros gh gsx env C table og W out cq L nobs term Ev E H P1 P23 Hk HW.
   exact (roundtrip C L nobs term Ev E P1 P23 W cq Hk HW (core_coeffs _ _ _ _ _ _ _ _ _ H)).
 Qed.
+
+(* ------------------------------------------------------------------------------------------------
+   2b. THE WHOLE CHAIN  generate (C05 model) ; exact sampler ; reconstruct (C06 model).
+       `run : mcirc -> quasi-distribution` is the exact evaluation of one subexperiment (the sampler; C13).  The results
+       handed to reconstruction are `results_of run rparts full` = every generated circuit evaluated, in order.
+       Compared with c01_roundtrip_partial the following hypotheses are GONE — they are now theorems about the models:
+         * "exact results" (the results of partition li for sample z decode to E li (projection) k): E is DEFINED from the
+           generated circuits (E_all / E_gen: decode of run (optimise (build1 .. pids g))) and the equation is
+           c01_generated_exact_results, proved from C05's layout (index z*G+m) and projection;
+         * the projection lists L: they are L_of = the label suffixes of the one-qubit placeholders of each subcircuit in
+           circuit order (separated form, c01_projection_lists) resp. all cut ids in order (unseparated form);
+         * the counts (#results = #coefficients x #groups) and the coefficient list shape: from C05's core.
+       What REMAINS assumed (hence _partial): P1 and P2+P3 — now statements about the value E_all that the generated
+       circuits decode to under `run`, i.e. pure physics of those circuits —, exact_weights (from C04 under
+       no_subcutoff_map), and that reconstruction's view `rparts` of each ObservableCollection has as many groups as
+       generation's view and well-formed lookups (both views are read from the same object; C11). *)
+Theorem c01_generated_exact_results :
+  forall gh gsx env run den (C : list (list Q)) table (W : sdict) nobs lg le rp z s k,
+  entry_ok gh gsx env table (sort_samples W) lg le ->
+  length (Reconstruct.pgroups rp) = length (snd lg) ->
+  length (Reconstruct.plookup rp) = nobs -> Reconstruct.locs_ok rp ->
+  nth_error (sort_samples W) z = Some s -> length (s_ids s) = length C -> k < nobs ->
+  Reconstruct.E den (rp, Reconstruct.DV1 (map run (snd le))) z k
+  = E_gen gh gsx env run den rp (pinfo_of table (fst lg)) (snd lg)
+      (project_ids (sfx_of (length C) (pinfo_of table (fst lg))) (s_ids s)) k.
+Proof.
+  intros gh gsx env run den C table W nobs lg le rp z s k H1 H2 H3 H4.
+  apply (generated_partition_exact gh gsx env run den C table W [rp] nobs); auto.
+  intros rp0 [<-|[]]; auto.
+Qed.
+
+Theorem c01_generated_roundtrip_partial :
+  forall gh gsx env run den (C : list (list Q)) table og (W : sdict) out (cq : list (Q * wkind)),
+  core gh gsx env C table og W = Ok (out, cq) ->
+  forall (rparts : list Reconstruct.part) (nobs : nat),
+  Forall2 (fun lg rp => length (Reconstruct.pgroups rp) = length (snd lg)) og rparts ->
+  (forall rp, In rp rparts -> length (Reconstruct.plookup rp) = nobs /\ Reconstruct.locs_ok rp) ->
+  forall full, Forall2 (entry_ok gh gsx env table (sort_samples W)) og full ->
+  forall (term : jkey -> nat -> Q) (Ev : nat -> Q) pyint0,
+  (forall k, k < nobs ->
+     (Ev k == sumQ (map (fun ids => (coeff_prod C ids * term ids k)%Q) (all_maps (map (@length Q) C))))%Q) ->
+  (forall ids k, In ids (all_maps (map (@length Q) C)) -> k < nobs ->
+     (term ids k == part_prod (L_of (length C) table og) (E_all gh gsx env run den table og rparts) ids k)%Q) ->
+  (forall v, In v C -> ~ (kappa_of v == 0)%Q) ->
+  exact_weights C W ->
+  (forall pd key, In pd (results_of run rparts full) -> In key (Reconstruct.keys_of (snd pd)) ->
+     Reconstruct.outcome_to_int pyint0 key = Some (den key)) ->
+  Reconstruct.res_Qeq (Reconstruct.reconstruct_parts pyint0 nobs (map fst cq) (results_of run rparts full))
+                      (Ok (map Ev (seq 0 nobs))).
+Proof. exact generated_roundtrip. Qed.
+
+(* such a `full` exists and the returned dictionary is `full` without its empty entries (C05) *)
+Theorem c01_generated_layout : forall gh gsx env C table og W out cq,
+  core gh gsx env C table og W = Ok (out, cq) ->
+  exists full, Forall2 (entry_ok gh gsx env table (sort_samples W)) og full /\
+               out = filter (fun le => negb (Nat.eqb (length (snd le)) 0)) full.
+Proof. exact core_layout. Qed.
+
+(* the projection lists are derived from the subcircuits *)
+Theorem c01_projection_lists :
+  (forall d M og ncuts li lg qc,
+     mapping_by_partition d = Ok M -> nth_error og li = Some lg -> alookup d (fst lg) = Some qc ->
+     nth_error (L_of ncuts (table_of d M) og) li = Some (suffixes (mdata qc))) /\
+  (forall ncuts qc ids groups,
+     L_of ncuts [(label_A, mkPI qc ids None)] [(label_A, groups)] = [identity_sfx ncuts]).
+Proof. split; [exact L_of_dict|exact L_of_single]. Qed.
+
+(* from the PUBLIC model of generate_cutting_experiments: separated form ... *)
+Theorem c01_generated_roundtrip_dict_partial :
+  forall gh gsx env cenv d od NS W dd cq (run : Measurement.mcirc -> list (Reconstruct.key * Q)) (den : Reconstruct.key -> N),
+  generate gh gsx env cenv (CDict d) (ODict od) NS W = Ok (OutDict dd, cq) ->
+  let C := map (fun b => nth b cenv []) (bases_by_partition d) in
+  exists M og full,
+    mapping_by_partition d = Ok M /\ all_groups od = Ok og /\
+    dd = filter (fun le => negb (Nat.eqb (length (snd le)) 0)) full /\
+    Forall2 (entry_ok gh gsx env (table_of d M) (sort_samples W)) og full /\
+    (forall li lg qc, nth_error og li = Some lg -> alookup d (fst lg) = Some qc ->
+       nth_error (L_of (length C) (table_of d M) og) li = Some (suffixes (mdata qc))) /\
+    forall (rparts : list Reconstruct.part) (nobs : nat) (term : jkey -> nat -> Q) (Ev : nat -> Q) pyint0,
+    Forall2 (fun lg rp => length (Reconstruct.pgroups rp) = length (snd lg)) og rparts ->
+    (forall rp, In rp rparts -> length (Reconstruct.plookup rp) = nobs /\ Reconstruct.locs_ok rp) ->
+    (forall k, k < nobs ->
+       (Ev k == sumQ (map (fun ids => (coeff_prod C ids * term ids k)%Q) (all_maps (map (@length Q) C))))%Q) ->
+    (forall ids k, In ids (all_maps (map (@length Q) C)) -> k < nobs ->
+       (term ids k == part_prod (L_of (length C) (table_of d M) og)
+                                (E_all gh gsx env run den (table_of d M) og rparts) ids k)%Q) ->
+    (forall v, In v C -> ~ (kappa_of v == 0)%Q) ->
+    exact_weights C W ->
+    (forall pd key, In pd (results_of run rparts full) -> In key (Reconstruct.keys_of (snd pd)) ->
+       Reconstruct.outcome_to_int pyint0 key = Some (den key)) ->
+    Reconstruct.res_Qeq (Reconstruct.reconstruct_parts pyint0 nobs (map fst cq) (results_of run rparts full))
+                        (Ok (map Ev (seq 0 nobs))).
+Proof. exact generated_roundtrip_dict. Qed.
+
+(* ... and unseparated form *)
+Theorem c01_generated_roundtrip_single_partial :
+  forall gh gsx env cenv qc gs NS W l cq (run : Measurement.mcirc -> list (Reconstruct.key * Q)) (den : Reconstruct.key -> N),
+  generate gh gsx env cenv (CSingle qc) (OPaulis gs) NS W = Ok (OutList l, cq) ->
+  exists groups bs ids,
+    gs = Ok groups /\ get_bases 0 (mdata qc) = Ok (bs, ids) /\
+    let C := map (fun b => nth b cenv []) bs in
+    let table := [(label_A, mkPI qc ids None)] in
+    let og := [(label_A, groups)] in
+    forall (rp : Reconstruct.part) (nobs : nat) (term : jkey -> nat -> Q) (Ev : nat -> Q) pyint0,
+    length (Reconstruct.pgroups rp) = length groups ->
+    length (Reconstruct.plookup rp) = nobs -> Reconstruct.locs_ok rp ->
+    (forall k, k < nobs ->
+       (Ev k == sumQ (map (fun ids => (coeff_prod C ids * term ids k)%Q) (all_maps (map (@length Q) C))))%Q) ->
+    (forall ids k, In ids (all_maps (map (@length Q) C)) -> k < nobs ->
+       (term ids k == part_prod [identity_sfx (length C)] (E_all gh gsx env run den table og [rp]) ids k)%Q) ->
+    (forall v, In v C -> ~ (kappa_of v == 0)%Q) ->
+    exact_weights C W ->
+    (forall key, In key (Reconstruct.keys_of (Reconstruct.DV1 (map run l))) ->
+       Reconstruct.outcome_to_int pyint0 key = Some (den key)) ->
+    Reconstruct.res_Qeq (Reconstruct.reconstruct_parts pyint0 nobs (map fst cq) [(rp, Reconstruct.DV1 (map run l))])
+                        (Ok (map Ev (seq 0 nobs))).
+Proof. exact generated_roundtrip_single. Qed.
 
 (* the two steps separately: the postulates turn the uncut value into the cut value ... *)
 Theorem c01_expansion :
@@ -470,6 +587,89 @@ Example c01_ex_value :
   Reconstruct.reconstruct_parts Reconstruct.pyint0_ref 3 (map fst Ex.cq) Ex.pds = Ok [1; 1; 0]%Q.
 Proof. vm_compute. reflexivity. Qed.
 
+(* NON-VACUITY of the chain theorem: the two-partition / two-cut request of C05's example (partition 7 holds half 0 of
+   cut 0 and both halves of cut 1, partition 9 the other half of cut 0 and an identity group), all four joint maps with
+   their exact probabilities, some exact evaluation `run`.  The call succeeds, the projection lists are the label
+   suffixes, the structural hypotheses hold, and with term/Ev DEFINED by the right-hand sides of P2+P3 / P1 the theorem
+   yields the reconstructed values (for the physics itself see c01_hyps_satisfiable above). *)
+Module Ex2.
+  Definition B0 : basis := [ ([BGate 10], [BGate 11]); ([BMeas], [BGate 12]) ].
+  Definition B1 : basis := [ ([BMeas; BReset], [BReset; BGate 13]); ([BGate 14; BReset], [BReset]) ].
+  Definition env : benv := [B0; B1].
+  Definition cenv : list (list Q) := [ [1 # 2; - (1 # 2)]%Q ; [1; -1]%Q ].
+  Definition L0 : qlabel := Some (0, Some 0).
+  Definition L1 : qlabel := Some (0, Some 1).
+  Definition cA : mcirc :=
+    mkMC 2 0 [] [ mkI (Gate 1) [0] []; mkI (Qpd1 0 0 None L0) [0] []; mkI (Gate 2) [0; 1] [];
+                  mkI (Qpd1 1 0 None L1) [1] []; mkI (Qpd1 1 1 None L1) [0] [] ].
+  Definition cB : mcirc := mkMC 1 0 [] [ mkI (Qpd1 0 1 None L0) [0] []; mkI (Gate 3) [0] []; mkI Reset [0] [] ].
+  Definition d : list (nat * mcirc) := [(7, cA); (9, cB)].
+  Definition od : list (nat * res (list ogroup)) :=
+    [ (7, Ok [mkOG [3; 1] [0; 1]]); (9, Ok [mkOG [0] []; mkOG [2] [0]]) ].
+  Definition W : sdict :=
+    [ ([0; 0], ((1 # 4)%Q, KExact)); ([0; 1], ((1 # 4)%Q, KExact)); ([1; 0], ((1 # 4)%Q, KExact)); ([1; 1], ((1 # 4)%Q, KExact)) ].
+  Definition C : list (list Q) := map (fun b => nth b cenv []) (bases_by_partition d).
+  (* an "exact sampler": any function of the circuit will do for the bookkeeping *)
+  Definition run (e : mcirc) : list (Reconstruct.key * Q) :=
+    [ (Reconstruct.KInt (N.of_nat (length (mdata e))), (3 # 4)%Q); (Reconstruct.KInt 1, (1 # 4)%Q) ].
+  Definition den (k : Reconstruct.key) : N := match k with Reconstruct.KInt n => n | _ => 0%N end.
+  (* reconstruction's view: partition 7 one group of two members, partition 9 two groups; two observables *)
+  Definition rparts : list Reconstruct.part :=
+    [ Reconstruct.mkPart 7 [0; 0] [(2, [3; 1]%N)] [[(0, 0)]; [(0, 1)]];
+      Reconstruct.mkPart 9 [0; 0] [(0, [0%N]); (1, [1%N])] [[(1, 0)]; [(0, 0)]] ].
+End Ex2.
+
+Example c01_ex_generated :
+  exists dd cq M og full,
+    generate 20 21 Ex2.env Ex2.cenv (CDict Ex2.d) (ODict Ex2.od) NPosInf Ex2.W = Ok (OutDict dd, cq) /\
+    mapping_by_partition Ex2.d = Ok M /\ all_groups Ex2.od = Ok og /\
+    Forall2 (entry_ok 20 21 Ex2.env (table_of Ex2.d M) (sort_samples Ex2.W)) og full /\
+    L_of (length Ex2.C) (table_of Ex2.d M) og = [[0; 1; 1]; [0]] /\
+    Forall2 (fun lg rp => length (Reconstruct.pgroups rp) = length (snd lg)) og Ex2.rparts /\
+    (forall rp, In rp Ex2.rparts -> length (Reconstruct.plookup rp) = 2 /\ Reconstruct.locs_ok rp) /\
+    (forall v, In v Ex2.C -> ~ (kappa_of v == 0)%Q) /\ exact_weights Ex2.C Ex2.W /\
+    Reconstruct.res_Qeq
+      (Reconstruct.reconstruct_parts Reconstruct.pyint0_ref 2 (map fst cq) (results_of Ex2.run Ex2.rparts full))
+      (Ok (map (cut_value Ex2.C (L_of (length Ex2.C) (table_of Ex2.d M) og)
+                          (E_all 20 21 Ex2.env Ex2.run Ex2.den (table_of Ex2.d M) og Ex2.rparts)) (seq 0 2))).
+Proof.
+  destruct (generate 20 21 Ex2.env Ex2.cenv (CDict Ex2.d) (ODict Ex2.od) NPosInf Ex2.W) as [[[l|dd] cq]| |] eqn:Eg;
+    try (vm_compute in Eg; discriminate).
+  destruct (c01_generated_roundtrip_dict_partial _ _ _ _ _ _ _ _ _ _ Ex2.run Ex2.den Eg)
+    as (M & og & full & HM & Hog & Hdd & HF & HL & Hmain).
+  assert (EM : M = [(7, ([[1]; [3]; [4]], [0; 1; 1])); (9, ([[0]], [0]))]) by (vm_compute in HM; now inversion HM).
+  assert (Eog : og = [(7, [mkOG [3; 1] [0; 1]]); (9, [mkOG [0] []; mkOG [2] [0]])]) by (vm_compute in Hog; now inversion Hog).
+  subst M og.
+  assert (Hk : forall v, In v Ex2.C -> ~ (kappa_of v == 0)%Q).
+  { intros v Hv. vm_compute in Hv. destruct Hv as [<-|[<-|[]]]; discriminate. }
+  assert (HW : exact_weights Ex2.C Ex2.W).
+  { split; [|split].
+    - repeat constructor; simpl; intuition discriminate.
+    - intros s [<-|[<-|[<-|[<-|[]]]]]; (split; [vm_compute; tauto|reflexivity]).
+    - intros ids Hin _. vm_compute in Hin. vm_compute. tauto. }
+  assert (G1 : Forall2 (fun lg rp => length (Reconstruct.pgroups rp) = length (snd lg))
+                 [(7, [mkOG [3; 1] [0; 1]]); (9, [mkOG [0] []; mkOG [2] [0]])] Ex2.rparts) by (repeat constructor).
+  assert (G2 : forall rp, In rp Ex2.rparts -> length (Reconstruct.plookup rp) = 2 /\ Reconstruct.locs_ok rp).
+  { intros rp [<-|[<-|[]]]; (split; [reflexivity|]); intros locs m n HLo HMn; cbn in HLo;
+      repeat (destruct HLo as [<-|HLo]; [cbn in HMn; repeat (destruct HMn as [HMn|HMn]; [inversion HMn; subst; cbn; lia|]); destruct HMn|]);
+      destruct HLo. }
+  exists dd, cq. eexists. eexists. exists full. split; [reflexivity|split; [exact HM|split; [exact Hog|split; [exact HF|]]]].
+  split; [reflexivity|split; [exact G1|split; [exact G2|split; [exact Hk|split; [exact HW|]]]]].
+  match goal with |- Reconstruct.res_Qeq _ (Ok (map (cut_value _ ?Lx ?Ex) _)) =>
+    apply (Hmain Ex2.rparts 2 (fun ids k => part_prod Lx Ex ids k) (cut_value Ex2.C Lx Ex) Reconstruct.pyint0_ref G1 G2) end.
+  - intros k _. reflexivity.
+  - intros ids k _ _. reflexivity.
+  - exact Hk.
+  - exact HW.
+  - intros pd key Hpd Hkey. unfold results_of in Hpd.
+    assert (Hrun : forall e key0, In key0 (map fst (Ex2.run e)) -> Reconstruct.outcome_to_int Reconstruct.pyint0_ref key0 = Some (Ex2.den key0)).
+    { intros e key0 [<-|[<-|[]]]; reflexivity. }
+    destruct pd as [rp dta]. apply in_combine_r in Hpd. apply in_map_iff in Hpd as (le & <- & _).
+    cbn [snd Reconstruct.keys_of] in Hkey.
+    apply in_map_iff in Hkey as (kp & <- & Hkp). apply in_concat in Hkp as (qd & Hqd & Hkp).
+    apply in_map_iff in Hqd as (e & <- & _). apply (Hrun e). now apply in_map.
+Qed.
+
 (* a dropped-map instance for c01_subcutoff: listing only five of the six maps loses exactly the sixth term *)
 Example c01_ex_dropped :
   dropped Ex.C (firstn 5 Ex.W) = [[5]] /\
@@ -488,6 +688,12 @@ Print Assumptions c01_multilinear.
 Print Assumptions c01_c05_vocabulary.
 Print Assumptions c01_roundtrip_partial.
 Print Assumptions c01_roundtrip_generated_partial.
+Print Assumptions c01_generated_exact_results.
+Print Assumptions c01_generated_roundtrip_partial.
+Print Assumptions c01_generated_layout.
+Print Assumptions c01_projection_lists.
+Print Assumptions c01_generated_roundtrip_dict_partial.
+Print Assumptions c01_generated_roundtrip_single_partial.
 Print Assumptions c01_expansion.
 Print Assumptions c01_listed_samples.
 Print Assumptions c01_roundtrip_public_partial.
@@ -500,6 +706,7 @@ Print Assumptions c01_idle_rule.
 Print Assumptions c01_checker_sound.
 Print Assumptions c01_hyps_satisfiable.
 Print Assumptions c01_ex_roundtrip.
+Print Assumptions c01_ex_generated.
 
 (* ---------------- tie to the source (regenerated facts) ---------------- *)
 From CKT Require Import Extracted.Facts.
